@@ -953,6 +953,8 @@ def r9_dimensions(ctx):
 
 def r10_solver_state(ctx):
     _C02.r1_kill_before_use(ctx)
+    from . import C01 as _C01
+    _C01.residue_guard(ctx)      # `m m`, `2 m` ...: symbols left over after the passes are an error, not silently dropped
     fn = ctx.fn(US, "UnitSolver")
     built = [c for c in ast.walk(fn) if isinstance(c, ast.Call) and dotted_name(c.func) == "ExpressionSolver"]
     mod = ctx.repo.module(US)
@@ -979,5 +981,5 @@ RULES = [
     ("C03.R8", "table well-formedness; unique spellings; longest-suffix parsing recovers every admissible (prefix, unit) spelling", r8_tables),
     ("C03.R9", "dimension vectors: component-wise + - * / neg over DIMENSION_LIST, equality over every component, list positions = dimension order", r9_dimensions),
     ("C03.R11", "the unit tables are changed only by a registration that records exactly what it added and removes exactly that (shared with C09.R2/R3)", r11_tables_intact),
-    ("C03.R10", "a unit string is parsed independently of earlier (possibly rejected) ones: fresh solver per call and empty buffers per solve (shared with C02.R1)", r10_solver_state),
+    ("C03.R10", "a unit string is parsed independently of earlier (possibly rejected) ones: fresh solver per call and empty buffers per solve (shared with C02.R1); tokens left over after the passes are rejected (shared with C01.R8c)", r10_solver_state),
 ]
